@@ -29,6 +29,12 @@ Theorem c16_no_invented_condition : forall progs, cross_disjoint progs -> forall
 Proof. exact (no_invented_condition health_set_shape health_clear_shape (eq_refl true) (eq_refl true)). Qed.
 Print Assumptions c16_no_invented_condition.
 
+(* every thread set can finish, whatever the shapes: the two theorems above are not vacuous for any program list *)
+Theorem c16_complete_schedule_exists : forall progs w0, exists sched,
+  all_done (fst (hrun health_set_shape health_clear_shape sched progs w0)) = true.
+Proof. exact (complete_schedule_exists health_set_shape health_clear_shape). Qed.
+Print Assumptions c16_complete_schedule_exists.
+
 (* non-vacuity: three threads (active health check toggling, outlier ejection, a third condition) on a word that
    already carries a foreign condition; an interleaved schedule in which every thread finishes *)
 Example c16_flags_example :
